@@ -37,4 +37,8 @@ PROPS = {
     "C14": {"scenario": "cachehist", "level": "exploration", "runs": {"quick": 30000, "thorough": 800000}, "components": COMPONENTS_L2,
             "required_probes": ["forced_run", "forced_success_on_edited_inputs"],
             "assumptions": ["task commands do not modify dependency files"]},
+    "C03": {"scenario": "graph", "level": "exploration", "runs": {"quick": 40000, "thorough": 1000000}, "components": COMPONENTS_L2,
+            "required_probes": ["dag_permutation_drawn", "cycle_in_closure", "cycle_next_to_other_tasks", "skipped_task_in_closure", "expected_error"],
+            "assumptions": ["the instrumented dag copy is iteration-order-equivalent to collections@v0.10.0 (differential self-test in setup)",
+                            "an undefined dependency of a task outside the requested closure may or may not be an error"]},
 }
